@@ -58,7 +58,7 @@ def configs(tier, seed):
             if len(out) % 3 == 0 and n > 2:
                 out[-1]["readd"] = True      # add a, b, c, ... and then a AGAIN, after the others
     # (sizes straddling 32 and 64: an OR-reduction built from 32- or 64-bit groups has a partial last group there)
-    for n in ((9, 17, 45) if tier == "quick" else (9, 17, 33, 45, 70, 100)):
+    for n in ((9, 17, 45, 70) if tier == "quick" else (9, 17, 33, 45, 70, 100, 130)):
         order = list(range(n))
         rnd.shuffle(order)
         out.append({"kind": "monitor", "trg": [TRG[rnd.randrange(3)] for _ in range(n)], "order": order,
